@@ -20,10 +20,15 @@
 //	           probe=n|t|f enc=m|p f=<k:v,…|->
 //	op    work               one iteration of the collect worker loop (peer queue first)
 //	op    flush u|p          dispatch every pending batch of the upstream / peer transmission
+//	op    srate <n>          StressRelief.SamplingRate is changed and the collector reloads its
+//	                         configuration (real reloadConfigs -> StressRelief.UpdateFromConfig)
+//	op    decide tid=<n> keep=0|1 rate=<n>   the normal sampler's decision for a trace that has no
+//	                         decision and is not buffered enters the decision record (real Record)
 //	ext   hash <tid> = <wyhash(trace id, hashSeed)>          (span ops with a trace id)
 //	obs   stress: rule=<sampleRate>,<upperBound>
-//	      span  : o=<id> err=0|1 enq=<tx><obj>@<host>/<key>/<ds>/<probe>,…|- q=<in>,<peer> buf=<spans|-1>,<traces>
+//	      span  : o=<id> err=0|1 enq=<tx><obj>@<host>/<key>/<ds>/<probe>/<SampleRate>,…|- q=<in>,<peer> buf=<spans|-1>,<traces>
 //	      work  : o=<id|-> from=i|p|- enq=… q=… buf=…
+//	      srate : rule=<sampleRate>,<upperBound>        decide: done=0|1
 //	      flush : n=<events> q=<batch;…|-> reqs=<req;…|-|*>
 //	              batch = <host>/<key>/<ds>|<obj>@<host now>/<key now>/<ds now>/<ev>+…   (pointers read now)
 //	              req   = <server>|<Host header>|<key>|<ds>|<ev>+…    ev = <sid>/<tid>/<rate>/<stressed>/<probe>/<fields>
@@ -54,6 +59,7 @@ import (
 	"github.com/honeycombio/refinery/logger"
 	"github.com/honeycombio/refinery/metrics"
 	"github.com/honeycombio/refinery/route"
+	"github.com/honeycombio/refinery/sample"
 	"github.com/honeycombio/refinery/sharder"
 	"github.com/honeycombio/refinery/transmit"
 	"github.com/honeycombio/refinery/types"
@@ -78,6 +84,19 @@ func (comp) Gen(r *kit.Rng, maxLen int, tier string) kit.Case {
 	n := 6 + r.Intn(maxLen)
 	stressed := false
 	var ops []string
+	decide := func() string {
+		keep := 1
+		if r.Chance(25) {
+			keep = 0
+		}
+		return fmt.Sprintf("decide tid=%d keep=%d rate=%d", 1+r.Intn(nt), keep, []int{1, 2, 4, 10, 25}[r.Intn(5)])
+	}
+	// some traces were decided by the normal sampler before the case starts
+	if r.Chance(45) {
+		for i := 1 + r.Intn(2); i > 0; i-- {
+			ops = append(ops, decide())
+		}
+	}
 	if r.Chance(75) {
 		ops = append(ops, "stress 1")
 		stressed = true
@@ -132,9 +151,9 @@ func (comp) Gen(r *kit.Rng, maxLen int, tier string) kit.Case {
 			via, own, tid, host, key, ds, rate, probe, enc, f)
 	}
 	for i := 0; i < n; i++ {
-		w := []int{60, 6, 8, 12, 7}
+		w := []int{60, 6, 8, 12, 7, 7, 2}
 		if !stressed {
-			w = []int{45, 25, 10, 12, 8}
+			w = []int{45, 25, 10, 12, 8, 2, 3}
 		}
 		switch r.Pick(w...) {
 		case 0:
@@ -152,6 +171,10 @@ func (comp) Gen(r *kit.Rng, maxLen int, tier string) kit.Case {
 			ops = append(ops, "flush u")
 		case 4:
 			ops = append(ops, "flush p")
+		case 5:
+			ops = append(ops, fmt.Sprintf("srate %d", []int{0, 1, 2, 3, 5, 7}[r.Intn(6)]))
+		case 6:
+			ops = append(ops, decide())
 		}
 	}
 	// relief ends, late spans of the traces seen, the worker catches up, everything is dispatched
@@ -348,7 +371,7 @@ func (t *recTx) EnqueueEvent(ev *types.Event) {
 	e := pendEntry{host: hostCode(ev.APIHost), key: keyCode(ev.APIKey), ds: dsCode(ev.Dataset), ev: ev, obj: obj}
 	t.pend = append(t.pend, e)
 	p := ev.Data.MetaRefineryProbe
-	t.r.enq = append(t.r.enq, fmt.Sprintf("%s%d@%s/%s/%s/%s", t.name, obj, e.host, e.key, e.ds, nb(p.HasValue, p.Value)))
+	t.r.enq = append(t.r.enq, fmt.Sprintf("%s%d@%s/%s/%s/%s/%d", t.name, obj, e.host, e.key, e.ds, nb(p.HasValue, p.Value), ev.SampleRate))
 	t.inner.EnqueueEvent(ev)
 }
 
@@ -374,6 +397,9 @@ type runner struct {
 	dup, dpx *transmit.DirectTransmission
 	mup, mpx *transmit.MockTransmission
 	objs     map[*types.Event]int
+	stressed bool
+	recorded map[int]bool // trace ids the decision record has an entry for
+	sf       *sample.SamplerFactory
 	enq      []string
 	url      map[string]string
 }
@@ -389,7 +415,7 @@ func (r *runner) objOf(ev *types.Event) int {
 
 func (comp) NewCase(h []string) kit.Runner {
 	srate, _ := strconv.ParseUint(kit.KV(h, "srate"), 10, 64)
-	r := &runner{mode: kit.KV(h, "mode"), objs: map[*types.Event]int{}}
+	r := &runner{mode: kit.KV(h, "mode"), objs: map[*types.Event]int{}, recorded: map[int]bool{}}
 	r.cfg = &config.MockConfig{
 		GetTracesConfigVal: config.TracesConfig{
 			SendTicker:   config.Duration(1000000 * time.Hour),
@@ -441,7 +467,12 @@ func (comp) NewCase(h []string) kit.Runner {
 	}
 	r.sr = &collect.StressRelief{RefineryMetrics: met, Config: r.cfg, Logger: lg, Clock: clock, Done: make(chan struct{})}
 	r.sh = &sharder.MockSharder{Self: &sharder.TestShard{Addr: "http://self.invalid"}, Other: &sharder.TestShard{}}
+	r.sf = &sample.SamplerFactory{Config: r.cfg, Metrics: met, Logger: lg}
+	if err := r.sf.Start(); err != nil {
+		panic(err)
+	}
 	r.coll = &collect.InMemCollector{
+		SamplerFactory:   r.sf,
 		Config:           r.cfg,
 		Logger:           lg,
 		Clock:            clock,
@@ -466,6 +497,7 @@ func (comp) NewCase(h []string) kit.Runner {
 
 func (r *runner) Close() {
 	collect.VerifStressrouteStop(r.coll)
+	r.sf.Stop()
 	if r.dup != nil {
 		// whatever is still pending goes to the fake endpoints and is ignored
 		r.dup.Stop()
@@ -585,9 +617,28 @@ func (r *runner) Do(op []string) (string, bool) {
 	r.enq = r.enq[:0]
 	switch op[0] {
 	case "stress":
-		r.sr.VerifStressrouteSetStressed(op[1] == "1")
+		r.stressed = op[1] == "1"
+		r.sr.VerifStressrouteSetStressed(r.stressed)
 		rate, bound := r.sr.VerifStressrouteRule()
 		return fmt.Sprintf("rule=%d,%d", rate, bound), true
+	case "srate":
+		n, _ := strconv.ParseUint(op[1], 10, 64)
+		r.cfg.Mux.Lock()
+		r.cfg.StressRelief.SamplingRate = n
+		r.cfg.Mux.Unlock()
+		collect.VerifStressrouteReload(r.coll)
+		rate, bound := r.sr.VerifStressrouteRule()
+		return fmt.Sprintf("rule=%d,%d", rate, bound), true
+	case "decide":
+		tid, _ := strconv.Atoi(kit.KV(op, "tid"))
+		rate, _ := strconv.ParseUint(kit.KV(op, "rate"), 10, 32)
+		spans, _ := collect.VerifStressrouteBuffered(r.coll, tidStr(tid))
+		if tid == 0 || spans >= 0 || r.recorded[tid] {
+			return "done=0", true
+		}
+		collect.VerifStressrouteRecord(r.coll, tidStr(tid), kit.KV(op, "keep") == "1", uint(rate))
+		r.recorded[tid] = true
+		return "done=1", true
 	case "span":
 		tid, _ := strconv.Atoi(kit.KV(op, "tid"))
 		sid := len(r.objs)
@@ -595,6 +646,9 @@ func (r *runner) Do(op []string) (string, bool) {
 		r.objOf(ev)
 		if tid != 0 {
 			kit.Ext("hash %d = %d", tid, collect.VerifStressrouteHash(tidStr(tid)))
+			if r.stressed && kit.KV(op, "probe") != "t" {
+				r.recorded[tid] = true // ProcessSpanImmediately looks the trace up and records a new decision
+			}
 		}
 		own := kit.KV(op, "own")
 		if own == "s" {
